@@ -56,6 +56,13 @@ let dispatch fn a =
     (match x_row_regex (t 0) with
      | Some p -> string_of_bool' (x_pat_apply (method_of_string a.(1)) p (t 2))
      | None -> "NOROW")
+  | "bic_new" -> out string_of_text (x_bic_new (t 0) (b 1) (b 2))
+  | "bic_validate" -> out string_of_bool' (x_bic_validate (b 1) (x_clean (t 0)))
+  | "bic_is_valid" -> out string_of_bool' (x_bic_is_valid (x_clean (t 0)))
+  | "bic_formatted" -> string_of_text (x_bic_formatted (x_clean (t 0)))
+  | "bic_parts" -> string_of_texts (x_bic_parts (x_clean (t 0)))
+  | "re_bic" -> string_of_bool' (x_pat_apply (method_of_string a.(1)) (x_bic_pat (b 0)) (t 2))
+  | "spec_bic_accept" -> string_of_bool' (s_iso9362_ok (b 1) (x_clean (t 0)))
   | "spec_iso_ok" -> string_of_bool' (s_iso_ok (t 0))
   | "spec_check_digits" -> string_of_text (s_check_digits (t 0) (t 1))
   | "spec_conforms" -> string_of_bool' (s_conforms (t 0) (t 1))
